@@ -89,6 +89,28 @@ pub fn clock_program<F: Family>(idx: usize, prog: &Program<F>, mode: &Mode) -> P
                             must.push((j, i));
                             may[j][i] = true;
                         }
+                        // a task cancelled in the middle of an operation has no return entry for it,
+                        // but the part it executed may already have learnt from others (a nested
+                        // wait that completed): everything on a common object may reach the joiner
+                        let cancelled_mid_op = !(0..m).any(|j| log[ev[j]].thread == *c && log[ev[j]].kind == EKind::End);
+                        if cancelled_mid_op {
+                            if let Some(inflight) = log.iter().rev().find(|x| x.thread == *c && x.kind == EKind::Call) {
+                                if let Some(GOp::Op(x)) = prog.threads[*c].get(inflight.op) {
+                                    let ox = F::objects_of(x);
+                                    for a in 0..m {
+                                        let ea = &log[ev[a]];
+                                        if ea.thread == *c || a >= i {
+                                            continue;
+                                        }
+                                        if let Some(GOp::Op(y)) = prog.threads[ea.thread].get(ea.op) {
+                                            if F::objects_of(y).iter().any(|o| ox.contains(o)) {
+                                                may[a][i] = true;
+                                            }
+                                        }
+                                    }
+                                }
+                            }
+                        }
                     }
                     _ => {}
                 }
@@ -256,7 +278,29 @@ pub fn clock_program<F: Family>(idx: usize, prog: &Program<F>, mode: &Mode) -> P
         shapes.insert(format!("{:?}", log.iter().filter(|e| matches!(e.kind, EKind::Ret(_))).map(|e| (e.thread, e.op)).collect::<Vec<_>>()));
         // ---- target-clock replay: nothing the target depends on may be dropped
         if ending == RawEnding::Ok {
-            let targets: Vec<usize> = if mode.clock_all_targets { (0..n).collect() } else { vec![0] };
+            // Targets other than main: only for programs all of whose operations succeed through
+            // the happens-before edges the property lists.  A failed try_*, an operation released
+            // by close / disconnection / unpark / abort or by a spurious wake-up depends on
+            // something no listed edge carries; a replay restricted to such a task's clock cannot
+            // re-create that cause, the task stalls, and everything after it looks "dropped" (seen on
+            // the unchanged tree in the first all-targets run: a false alarm of this check, the
+            // statement defines "depends on" through the listed edges).
+            let plain = prog.threads.iter().flatten().all(|o| {
+                let name = match o {
+                    GOp::Op(x) => format!("{:?}", x),
+                    g => format!("{:?}", g),
+                };
+                const OUTSIDE: [&str; 34] = [
+                    "MTry", "RTry", "MPanic", "RPanic", "Park", "Unpark", "DropTx", "DropRx", "TrySend", "TryRecv", "Close", "TryAcquire", "Start", "Poll", "Cancel", "Await",
+                    "Avail", "IsClosed", "StartShared", "AwaitShared", "CancelShared", "Abort", "Detach", "IsFinished", "Tls", "NestedBlockOn", "FlagWaitNested", "FlagWaitRacy",
+                    "FlagWaitStart", "FlagWaitShared", "OnceIsCompleted", "CasWeak", "Cas", "FetchUpdate",
+                ];
+                !OUTSIDE.iter().any(|p| name.starts_with(p))
+            })
+            // a strictly fair queue adds one more: a waiter also depends on the release that served the
+            // waiter in front of it, which is not "the acquire that release enables"
+            && !format!("{:?}", prog.cfg).contains("fair: true");
+            let targets: Vec<usize> = if mode.clock_all_targets && plain { (0..n).collect() } else { vec![0] };
             for t in targets {
                 let Some(last) = (0..m).rev().find(|&i| log[ev[i]].thread == t && matches!(log[ev[i]].kind, EKind::Ret(_))) else { continue };
                 let target_clock = log[ev[last]].clock.clone();
@@ -265,7 +309,8 @@ pub fn clock_program<F: Family>(idx: usize, prog: &Program<F>, mode: &Mode) -> P
                 rs.set_target_clock(&target_clock[..]);
                 let (log2, end2) = run_once::<F, _>(&arc, rs, &config);
                 if let RawEnding::Panic(msg) = &end2 {
-                    complain("target-clock-replay-rejected", format!("replay restricted to the clock of thread {}'s last operation {:?} failed: {}", t, target_clock, msg));
+                    let sig = if msg.contains("Option::unwrap()") { "target-clock-replay-rejected:unwrap-on-None-at-teardown" } else { "target-clock-replay-rejected" };
+                    complain(sig, format!("replay restricted to the clock of thread {}'s last operation {:?} failed: {}", t, target_clock, msg));
                     continue;
                 }
                 // must-past of the target
@@ -286,13 +331,22 @@ pub fn clock_program<F: Family>(idx: usize, prog: &Program<F>, mode: &Mode) -> P
                         continue;
                     }
                     let e = &log[ev[i]];
-                    if let EKind::Ret(r) = &e.kind {
-                        let again = log2.iter().any(|x| x.thread == e.thread && x.op == e.op && x.kind == EKind::Ret(r.clone()));
+                    if let EKind::Ret(_) = &e.kind {
+                        // "dropped" = the operation does not complete in the restricted replay.  A
+                        // *different result* is not judged: results may depend on state that is no
+                        // happens-before edge of the property (a failed try_*, a closed semaphore, a
+                        // disconnected channel), and the statement is about steps being dropped.
+                        let again = log2.iter().any(|x| x.thread == e.thread && x.op == e.op && matches!(x.kind, EKind::Ret(_)));
                         if !again {
+                            let opname = match prog.threads[e.thread].get(e.op) {
+                                Some(GOp::Op(o)) => format!("{:?}", o).split(['(', ' ']).next().unwrap_or("?").to_string(),
+                                Some(g) => format!("{:?}", g).split(['(', ' ']).next().unwrap_or("?").to_string(),
+                                None => "?".into(),
+                            };
                             complain(
-                                "target-clock-replay-dropped-a-dependency",
+                                &format!("target-clock-replay-dropped:{}", opname),
                                 format!(
-                                    "replay restricted to the clock of thread {}'s last operation dropped (or changed) thread {} op {} {:?}, on which the target depends",
+                                    "replay restricted to the clock of thread {}'s last operation dropped thread {} op {} {:?}, on which the target depends",
                                     t, e.thread, e.op, e.kind
                                 ),
                             );
